@@ -224,12 +224,12 @@ def oracleCap (items : List WItem) (aliases : List (Str × Str)) (obs : List Str
        else if C32.D_unguarded_alt aliases (specItems items) then "fails anchor:D_unguarded_alt"
        else if C32.D_name_order caps.length then "fails capture:D_name_order"
        else "fails capture:-"
-     | .ok _, ["nomatch"] =>
-       if C32.D_unguarded_alt aliases (specItems items) then "fails anchor:D_unguarded_alt" else "fails capture:-"
      | .panic, ["panic"] =>
        if C32.D_scale_nan prims caps then "fails filter:D_scale_nan_panic" else "fails filter:-"
      | .oom, _ => "oom"
-     | _, _ => "fails capture:-")
+     | _, _ =>
+       -- any other mismatch: a rule with an unguarded alternation matches something else than its text
+       if C32.D_unguarded_alt aliases (specItems items) then "fails anchor:D_unguarded_alt" else "fails capture:-")
   | .oom => "oom"
   | _ => "fails capture:-"
 
